@@ -143,7 +143,7 @@ pub const PROPS: &[PropSpec] = &[
         mix: &[],
         classes: &["http/", "read/", "get/", "head/", "import/", "append/id-not-increasing", "cas/empty-post-status", "cas/hash", "follow/threshold-missing"],
         nontrivial: &[&["http:append-ok"], &["http:400", "http:404", "http:store-rejected", "http:unknown-route", "http:client-disconnect"], &["http:cat-ndjson", "http:cat-sse", "http:head"]],
-        must_reach: &["http:append-ok", "http:400", "http:404", "http:store-rejected", "http:unknown-route", "http:client-disconnect", "http:fragmented", "http:backpressure", "http:chunked-body", "http:body>8KiB", "http:bodyless-append", "http:cat-ndjson", "http:cat-sse", "http:head", "http:keep-alive", "cas:post", "cas:get", "cas:empty-post", "import:ok", "import:rejected", "follow:tail", "follow:history", "follow:head", "follow:live-frames", "remove:live"],
+        must_reach: &["http:append-ok", "http:400", "http:404", "http:store-rejected", "http:unknown-route", "http:client-disconnect", "http:fragmented", "http:backpressure", "http:chunked-body", "http:body>8KiB", "http:bodyless-append", "http:cat-ndjson", "http:cat-sse", "http:head", "http:keep-alive", "http:pipelined", "cas:post", "cas:get", "cas:empty-post", "import:ok", "import:rejected", "follow:tail", "follow:history", "follow:head", "follow:live-frames", "remove:live"],
         quick_runs: 1200,
         thorough_runs: 60_000,
         rule: "request sequences (5-45 requests over every route, valid and invalid ids / contexts / TTLs / option strings / xs-meta payloads / bodies, NDJSON and SSE, follow streams kept open across later requests) sent to the real hyper server over in-memory pipes of 1..65536 bytes, fragmented at seeded offsets, chunked or fixed-length, some cut by a client disconnect; after every request the response and the store are compared with the reference model and with the Store API; non-trivial = a successful append, a rejected/unknown/cut request and a read all happened; distinct = distinct trace hash",
